@@ -47,7 +47,7 @@ DimOf(ww, e) ==
   THEN FindUnusedStr(IF e.a = "SelectIndexes" THEN "index" ELSE "point", Range1(ww.alldims))
   ELSE e.dim
 
-ClauseNames == {"Completed", "PolyOrder", "CentreOrder", "RavelOrder", "SelectOrder", "SelectAbsent", "HitsArePositions", "SpatialIndexItems",
+ClauseNames == {"GeometryAbsent", "Completed", "PolyOrder", "CentreOrder", "RavelOrder", "SelectOrder", "SelectAbsent", "HitsArePositions", "SpatialIndexItems",
                 "IffIntersects", "LowestIndex", "Coherent", "NeverAHole", "SelectPointMatches",
                 "IndexesValues", "IndexesAbsent", "DtypeKept", "PointsError", "PointsDrop", "PointsFill", "FrameColumns",
                 "ExportCells", "ExportIndexes",
@@ -87,6 +87,12 @@ Clause(name, ww, e) ==
             /\ \A i \in SelVars(ww, e.kind) :
                  LET V == SelectView(ww, ww.vars[i], e.n)  R == ObsVar(e.obs.ok.vars, ww.vars[i].name)
                  IN R.dims = V.dims /\ R.shape = V.shape /\ R.data = ShiftSeq(V.data)
+    [] name = "GeometryAbsent" ->
+         \* whatever is selected (one index, several, points, a table): none of the variables that make up the geometry of
+         \* the dataset - held as data variables or as coordinates - is part of the answer
+         (Ok(e) /\ e.a \in {"SelectIndex", "SelectIndexes", "SelectPoints", "ExtractDF"} /\ "geomnames" \in DOMAIN ww
+                /\ "allnames" \in DOMAIN e.obs.ok) =>
+            Range1(e.obs.ok.allnames) \cap Range1(ww.geomnames) = {}
     [] name = "SelectAbsent" ->
          Is(e, "SelectIndex") => VarNames(ww, AbsentVars(ww, e.kind)) \cap NamesOf(e.obs.ok.vars) = {}
     [] name = "HitsArePositions" ->
